@@ -13,6 +13,7 @@ import JV.Drv.Dom
 import JV.Drv.JsonPath
 import JV.Drv.JMESPath
 import JV.Drv.Csv
+import JV.Drv.Typed
 open JV Drv
 
 def dispatch (line : String) : String :=
@@ -29,6 +30,7 @@ def dispatch (line : String) : String :=
   | "jp" :: rest => jpLine rest
   | "jm" :: rest => jmLine rest
   | "csvm" :: rest => csvmLine rest
+  | "ty" :: rest => tyLine rest
   | [] => ""
   | _ => "bad-op"
 
